@@ -185,6 +185,7 @@ type workerResult struct {
 	Samples     []sample       `json:"samples"`
 	WallS       float64        `json:"wall_s"`
 	Replay      *replayResult  `json:"replay"`
+	MemAbort    string         `json:"mem_abort"`
 }
 
 func runWorker(bin string, spec workerSpec, scratch string, timeout time.Duration) (*workerResult, error) {
@@ -513,7 +514,11 @@ func runProperty(prop, tier string, seed uint64, runs int, mutate, scratch strin
 	var samples []sample
 	var foreignEx []string
 	merged := map[string]*finding{}
+	memAbort := ""
 	for _, r := range results {
+		if r.MemAbort != "" {
+			memAbort = r.MemAbort
+		}
 		explore += r.ExploreRuns
 		sweep += r.SweepRuns
 		capped += r.Capped
@@ -691,6 +696,9 @@ func runProperty(prop, tier string, seed uint64, runs int, mutate, scratch strin
 		prop, tier, evaluations, explore, evaluations-explore-sweep, sweep, len(hashes), violations, len(knownHit), wall, buildS)
 	if len(hashes) < 2 {
 		trouble("fewer than 2 distinct non-trivial runs: the check explored nothing")
+	}
+	if memAbort != "" && exit == 0 {
+		trouble("a worker stopped early to protect the machine (%s) and no violation explains it", memAbort)
 	}
 	return exit
 }
